@@ -16,6 +16,7 @@ import os
 import re
 import shutil
 import subprocess
+import sys
 import tempfile
 
 from .. import core
@@ -231,7 +232,7 @@ def cli_args(op, scn, no_lock=False):
 # running the binary under the shim
 
 def run_shim(fclones, shim, args, report, scope, fail=None, fail2=None, kill=None, sim_ficlone=False, cwd=None,
-             threads="1", timeout=60, binary_args_stdin=True, env_extra=None):
+             threads="1", timeout=60, binary_args_stdin=True, env_extra=None, drop_caps=False):
     """returns dict(exit, stderr, stdout, trace=[fields...])"""
     env = dict(os.environ)
     env.update({"LD_PRELOAD": shim, "FSSHIM_SCOPE": scope, "RAYON_NUM_THREADS": threads})
@@ -250,12 +251,38 @@ def run_shim(fclones, shim, args, report, scope, fail=None, fail2=None, kill=Non
         env["FSSHIM_FD"] = str(fd)
         with open(report, "rb") as rin:
             p = subprocess.run([fclones] + args, stdin=rin, stdout=subprocess.PIPE, stderr=subprocess.PIPE, env=env,
-                               pass_fds=(fd,), cwd=cwd, timeout=timeout)
+                               pass_fds=(fd,), cwd=cwd, timeout=timeout, preexec_fn=drop_dac_caps if drop_caps else None)
         tf.seek(0)
         raw = tf.read().decode("utf-8", "surrogateescape")
     trace = [l.split("\t") for l in raw.split("\n") if l]
     return {"exit": p.returncode, "stderr": p.stderr.decode("utf-8", "replace"), "stdout": p.stdout.decode("utf-8", "replace"),
             "trace": trace}
+
+
+def drop_dac_caps():
+    """preexec_fn: remove CAP_DAC_OVERRIDE (1) and CAP_DAC_READ_SEARCH (2) from the capability bounding set, so the
+    exec'ed program (uid 0) is subject to the permission bits like an ordinary user (PR_CAPBSET_DROP = 24)"""
+    import ctypes
+    libc = ctypes.CDLL(None, use_errno=True)
+    for cap in (1, 2):
+        if libc.prctl(24, cap, 0, 0, 0) != 0:
+            os._exit(97)
+
+
+def caps_can_be_dropped(scratch):
+    """does a process launched through drop_dac_caps really fail to open a root-owned 0444 file for writing?"""
+    p = os.path.join(scratch, "capprobe")
+    with open(p, "wb") as f:
+        f.write(b"x")
+    os.chmod(p, 0o444)
+    try:
+        r = subprocess.run([sys.executable, "-c", "import sys\ntry:\n open(sys.argv[1], 'r+b'); print('writable')\nexcept PermissionError: print('denied')", p],
+                           stdout=subprocess.PIPE, stderr=subprocess.PIPE, preexec_fn=drop_dac_caps, timeout=30)
+        return r.stdout.decode().strip() == "denied"
+    except Exception:
+        return False
+    finally:
+        os.remove(p)
 
 
 def log_summary(stderr):
@@ -366,8 +393,15 @@ def abstract_trace(trace, victims):
             if inj == "KA" and name == "ficlone" and ret < 0:
                 kill["env_fail"] = ERRNAME.get(err, "EOTHER")      # the sandbox refused the clone, then the kill
             break
-        calls.append({"text": text, "kind": name, "ks": [n], "inj": injected, "res": res, "partial": None,
-                      "sim": inj == "S", "env_fail": name == "ficlone" and ret < 0 and not injected})
+        env_fail = name == "ficlone" and ret < 0 and not injected
+        if name == "open" and ret < 0 and err == 13 and not injected:
+            # EACCES: permissions are not part of FsModel.v; the refusal is fed to the model as an environment fault
+            res, env_fail = "EPERM", True
+        entry = {"text": text, "kind": name, "ks": [n], "inj": injected, "res": res, "partial": None,
+                 "sim": inj == "S", "env_fail": env_fail}
+        if name in ("lock", "unlock"):
+            entry["flock"] = dict(a.split("=", 1) for a in args[1:] if "=" in a)
+        calls.append(entry)
     else:
         close_copy()
     return calls, kill
